@@ -1,4 +1,4 @@
-//@ unit u9b_day_selection props C03 also C02
+//@ unit u9b_day_selection props C03 also C02 C20 C14
 // Unit U9b: which days of a room are fetched from a peer (src/synchronisation/peer_inbound_service.rs:
 // synchronise_room_data, synchronise_history, synchronise_last_day).  Convergence rests on it: a (room, entity, day) whose
 // digest at the peer differs from the local one - or that is unknown locally - must be synchronised; when the chained history
@@ -199,6 +199,9 @@ pub uninterp spec fn nondet(k: int) -> bool;
 //@ result r
 //@ insert body-start
         proof { assert(<Vec<u8> as PartialEqSpec<Vec<u8>>>::obeys_eq_spec()); assert(<i64 as PartialEqSpec<i64>>::obeys_eq_spec()); }
+//@ insert before-text "Self::synchronise_last_day(remote_room, local_room_def, query_service, discret_services)"
+            // [room_task_reaches_the_last_day_comparison_only_with_a_date_to_unwrap]{C20,C14} the last-day comparison unwraps the peer's last date: it is reached only when that date is present (or nothing will be fetched) - a panic here would end the room's synchronisation task before it hands back the room and its slot
+            assert(!last_days_agree(*remote_room, *local_room_def) ==> remote_room.last_data_date is Some);
 //@ insert after-stmt "let sync_history"
         proof {
             // [summary_that_stops_the_comparison_covers_every_entity]{C03} (known finding F41) the whole-history comparison may be skipped only on a summary that speaks for every entity of the room: the summary compared here is the log row of a single entity (RoomDefinitionLog::get reads one row of the join), so a change to any OTHER entity on or before the room's last date is never noticed and never fetched
